@@ -111,6 +111,10 @@ spif_charptr_t spiftool_chomp(spif_charptr_t s)
     __CPROVER_assume(n < VREMAIN(s));
     s[n] = 0;                                   /* still a C string */
     __CPROVER_assume(!VSPACE(s[0]));
+#ifdef U_PL_BARE_PCT
+    /* behaviour: a '%' that is not followed by a plain character */
+    __CPROVER_assume(s[0] == '%' && !VPLAINCH(s[1]));
+#endif
     vg_seq++;
     vg_t_chomp = vg_seq;
 #define VLINE_SNAP(i) vg_line[i] = ((size_t) (i) < VREMAIN(s)) ? s[i] : 0;
@@ -148,14 +152,16 @@ spif_charptr_t spiftool_get_pword(unsigned long index, const spif_charptr_t str)
 {
     __CPROVER_assert(str != NULL && __CPROVER_r_ok(str, 1), "get_pword contract: str readable");
     if (index == 1 && VPLAINCH(str[0])) return (spif_charptr_t) str;
-    if (str[0] == 0) return (spif_charptr_t) NULL;          /* the empty string has no words */
 #if defined(VERIF_PWORD1_PRESENT)
-    /* behaviour split: a first word exists (the unit C11.parse_line_bare_pct covers the other case) */
-    if (index != 1 && nondet_bool()) return (spif_charptr_t) NULL;
+    /* behaviour split: word 1 exists (the behaviour "no word follows" is unit C11.parse_line_bare_pct) */
+    if (index == 1) __CPROVER_assume(str[0] != 0);
+    if (index != 1 && (str[0] == 0 || nondet_bool())) return (spif_charptr_t) NULL;
 #elif defined(VERIF_PWORD1_ABSENT)
-    if (index == 1 || nondet_bool()) return (spif_charptr_t) NULL;
+    /* behaviour split: no word 1 (the string is empty, blank, or a lone quote: superset of the real NULL cases
+     * among strings that do not start with a plain character) */
+    if (index == 1 || str[0] == 0 || nondet_bool()) return (spif_charptr_t) NULL;
 #else
-    if (nondet_bool()) return (spif_charptr_t) NULL;
+    if (str[0] == 0 || nondet_bool()) return (spif_charptr_t) NULL;          /* the empty string has no words */
 #endif
     size_t n = strlen((const char *) str);      /* a NUL position of str (env.h) */
     size_t off = nondet_size_t();
@@ -243,9 +249,11 @@ static unsigned char v_file_push(FILE *fp, spif_charptr_t path, spif_charptr_t o
     __CPROVER_assert(fstate_idx < 255, "register_fstate contract: fstate_idx < 255");
     __CPROVER_assert(fp != NULL && path != NULL && line <= 0xffffffffUL, "register_fstate contract: fp, path not NULL, line fits");
     unsigned char old_idx = fstate_idx;
-    fstate_t keep_k;
-    _Bool has_k = vg_k <= old_idx;
+    /* FSTK_KEEP is proved for an arbitrary ghost index: instantiated here at vg_k and at vg_k2 */
+    fstate_t keep_k, keep_k2;
+    _Bool has_k = vg_k <= old_idx, has_k2 = vg_k2 <= old_idx;
     if (has_k) keep_k = fstate[vg_k];
+    if (has_k2) keep_k2 = fstate[vg_k2];
     unsigned int cnt = nondet_uint();
     __CPROVER_assume(cnt >= 1 && cnt <= 512);
     if (nondet_bool()) {
@@ -264,6 +272,7 @@ static unsigned char v_file_push(FILE *fp, spif_charptr_t path, spif_charptr_t o
     fstate[fstate_idx].line = (spif_uint32_t) line;
     fstate[fstate_idx].flags = flags;
     if (has_k) fstate[vg_k] = keep_k;
+    if (has_k2) fstate[vg_k2] = keep_k2;
     return fstate_idx;
 }
 #endif
